@@ -120,7 +120,7 @@ func runVolumeWitness(out *hx.Out) {
 	}
 	copyTerm := fmt.Sprintf("{| r_rec := 0; r_pos := %d; r_mask := %d; r_npre := %s; r_file := %s; r_index := %s; r_reads := %s |}",
 		pos, mask, pk(nfile[:8]), pk(nfile), hx.List(index), hx.List(rds))
-	term := fmt.Sprintf("{| c_version := %d; c_prefix := %s; c_needles := %s; c_crcs := %s; c_crc_empty := %d; c_crc_extra := %s; c_flips := %s; c_do_scan := true; c_scan_off := 8; c_recopies := %s; c_tscans := []; c_raws := []; i_scan_panicked := %s; i_file := %s; i_appends := %s; i_reads := %s; i_scan := %s |}",
+	term := fmt.Sprintf("{| c_version := %d; c_prefix := %s; c_needles := %s; c_crcs := %s; c_crc_empty := %d; c_crc_extra := %s; c_flips := %s; c_do_scan := true; c_scan_off := 8; c_recopies := %s; c_tscans := []; c_raws := []; i_scan_panicked := %s; i_file := %s; i_appends := %s; i_reads := %s; i_scan := %s; c_streams := [] |}",
 		version, pk(prefix), hx.List(inTerms), "(["+crcs[0]+"; "+crcs[1]+"]%N : list N)", uint32(needle.NewCRC(nil)),
 		hx.List(extra), hx.List([]string{flipTerm}), hx.List([]string{copyTerm}), hx.Bool(panicked),
 		pk(file), hx.List(appends), hx.List(reads), hx.List(sc.visits))
